@@ -1228,7 +1228,6 @@ impl Parser {
             })));
         }
 
-        let cspan = self.previous().span_to(self.peek().span());
         let labels = vec![
             LabeledSpan::at(self.peek().span(), "primary expected here"),
             // LabeledSpan::at(cspan, "consider checking your upstream code"),
